@@ -1,6 +1,6 @@
 ----------------------------- MODULE Trace_C20 -----------------------------
 (* Validates recorded executions of the real XalanMap / XalanSet / XalanVector / XalanList /      *)
-(* XalanDeque / XalanDOMString (harness/c20.cpp) against the abstract models of Containers.tla:   *)
+(* XalanDeque / XalanDOMString / XalanDOMStringPool (harness/c20.cpp) against the abstract models of Containers.tla:   *)
 (* every recorded operation must respect its precondition, return what the abstract operation     *)
 (* returns and leave every object involved showing exactly the abstract state through its public   *)
 (* observers (size, iteration, find of every key, element access, c_str()[length()] = 0, the        *)
@@ -49,6 +49,10 @@ StrStep(s, ev) ==
           /\ (StrHasOther(ev) => ev.otherLen = Len(ev.other) /\ ev.otherTerm = 0),
    st |-> [c |-> "string", m |-> a.st]]
 
+PoolStep(s, ev) ==
+  LET a == PoolApply(s.m, ev) IN
+  [ok |-> a.ok /\ ev.res = a.res /\ PoolGotOK(ev, ev.got) /\ PoolObsOK(a.st, ev.obs), st |-> [c |-> "pool", m |-> a.st]]
+
 (* the first event of an execution: a freshly constructed, empty object *)
 NewStep(ev) ==
   CASE ev.c = "map"    -> [ok |-> MapObsOK({}, ev.obs[1]) /\ MapObsOK({}, ev.obs[2]) /\ LifeOK(0, ev.live, ev.bad), st |-> [c |-> "map", m |-> <<{}, {}>>]]
@@ -57,6 +61,7 @@ NewStep(ev) ==
     [] ev.c = "list"   -> [ok |-> ListObsOK(<<>>, ev.obs) /\ LifeOK(0, ev.obs.live, ev.obs.bad), st |-> [c |-> "list", m |-> <<>>]]
     [] ev.c = "deque"  -> [ok |-> DeqObsOK(<<>>, ev.obs), st |-> [c |-> "deque", m |-> <<>>]]
     [] ev.c = "string" -> [ok |-> StrObsOK(<<>>, ev.obs), st |-> [c |-> "string", m |-> <<>>]]
+    [] ev.c = "pool"   -> [ok |-> PoolObsOK(<<>>, ev.obs), st |-> [c |-> "pool", m |-> <<>>]]
     [] OTHER -> [ok |-> FALSE, st |-> Init0]
 
 (* the last event: the objects are gone, so are all their elements *)
@@ -73,6 +78,7 @@ C20Step(s, ev) ==
                   [] ev.c = "list"   -> ListStep(s, ev)
                   [] ev.c = "deque"  -> DeqStep(s, ev)
                   [] ev.c = "string" -> StrStep(s, ev)
+                  [] ev.c = "pool"   -> PoolStep(s, ev)
                   [] OTHER -> [ok |-> FALSE, st |-> s]
   IN [ok |-> r.ok, st |-> r.st,
       msg |-> IF r.ok THEN "" ELSE IF ev.e # "Op" THEN "abort" ELSE ev.c \o "." \o ev.op]   \* (tools/props/c20.py words the report)
